@@ -184,6 +184,7 @@ func checkC16(c *Ctx) {
 	checkLegacySyntheticKey(c)
 	// a rollback into the legacy range also removes what later commits re-saved in the new key-space
 	checkRollbackRange(c)
+	checkLegacyRootConsumers(c, "DOM-legacy-empty-root")
 	checkLegacyOrphanTable(c)
 	// pruning across the boundary
 	dvt := l.Func("", "*nodeDB.deleteVersionsTo")
@@ -595,5 +596,110 @@ func checkLegacySyntheticKey(c *Ctx) {
 	}
 	if n < 2 {
 		c.anchorMissing(R, "fewer than 2 SaveNode call sites")
+	}
+}
+
+// nonEmptyGuards: Ifs of fn testing len(x) against zero for an x accepted by
+// isX; pass is the edge on which x is non-empty.
+func nonEmptyGuards(fn *ssa.Function, isX func(ssa.Value) bool) []guard {
+	return findGuards(fn, func(cond ssa.Value) (bool, int) {
+		b, ok := cond.(*ssa.BinOp)
+		if !ok {
+			return false, 0
+		}
+		lenOf := func(v ssa.Value) bool {
+			call, ok := stripTrivial(v).(*ssa.Call)
+			if !ok || len(call.Call.Args) != 1 {
+				return false
+			}
+			bi, ok := call.Call.Value.(*ssa.Builtin)
+			return ok && bi.Name() == "len" && isX(stripTrivial(call.Call.Args[0]))
+		}
+		if lenOf(b.X) {
+			if z, isC := constInt(b.Y); isC {
+				switch {
+				case z == 0 && b.Op == token.EQL:
+					return true, 1
+				case z == 0 && (b.Op == token.NEQ || b.Op == token.GTR):
+					return true, 0
+				case z == 1 && b.Op == token.GEQ:
+					return true, 0
+				case z == 1 && b.Op == token.LSS:
+					return true, 1
+				}
+			}
+		}
+		if lenOf(b.Y) {
+			if z, isC := constInt(b.X); isC && z == 0 {
+				switch b.Op {
+				case token.EQL:
+					return true, 1
+				case token.NEQ, token.LSS:
+					return true, 0
+				}
+			}
+		}
+		return false, 0
+	})
+}
+
+// checkLegacyRootConsumers (shared by C16, C09): a legacy root record with an
+// empty value is the root of an EMPTY version (GetRoot says so).  Whoever walks
+// the legacy root records and hands a record's value on as a node key must
+// leave the empty one out: there is no node to read, and the node reader fails
+// (it used to index the key) on a zero-length key.
+func checkLegacyRootConsumers(c *Ctx, rule string) {
+	l := c.L
+	c.rule(rule, "walks over legacy root records do not read a node for the empty root", 1)
+	dvf := l.Func("", "*nodeDB.DeleteVersionsFrom")
+	getNode := l.Func("", "*nodeDB.GetNode")
+	if dvf == nil || getNode == nil {
+		c.anchorMissing(rule, "nodeDB.DeleteVersionsFrom / GetNode")
+		return
+	}
+	reach := l.reachableFrom
+	n := 0
+	for _, cb := range dvf.AnonFuncs {
+		if len(cb.Params) < 2 {
+			continue
+		}
+		val := cb.Params[1]
+		gs := nonEmptyGuards(cb, func(v ssa.Value) bool { return v == ssa.Value(val) })
+		allInstrs(cb, func(in ssa.Instruction) {
+			cc := callCommon(in)
+			if cc == nil {
+				return
+			}
+			f := staticCallee(cc)
+			if f == nil || !l.inModule(f) {
+				return
+			}
+			argIdx := -1
+			for i, a := range cc.Args {
+				if stripTrivial(a) == ssa.Value(val) {
+					argIdx = i
+				}
+			}
+			if argIdx < 0 || !reach(f)[getNode] && f != getNode {
+				return
+			}
+			n++
+			ok := guardsEffect(gs, in)
+			if !ok && argIdx < len(f.Params) {
+				// or the callee leaves on an empty key before anything else
+				p := f.Params[argIdx]
+				for _, g := range nonEmptyGuards(f, func(v ssa.Value) bool { return v == ssa.Value(p) }) {
+					if g.iff.Block() == f.Blocks[0] {
+						ok = true
+					}
+				}
+			}
+			c.decide(rule, l.fname(cb)+" hands a legacy root value to "+l.fname(f), l.ipos(in), ok,
+				"behind a non-empty test of the record's value",
+				"the value of a legacy root record is handed on as a node key without a non-empty test: the record of an empty version has an empty value, the node read fails on it, and a rollback across an empty legacy version fails (it panicked before GetNode checked the key length)")
+		})
+	}
+	if n == 0 {
+		c.anchorMissing(rule, "no legacy root record consumer found in DeleteVersionsFrom")
 	}
 }
